@@ -480,10 +480,26 @@ theorem bodylimit_meets_spec (r : Req) (hl : 1 ≤ r.limit) : specOK r (serve r)
       have hB := fun hwb => bodylimit_exact r.dflt (fuelFor r) r.caps
         { under := { rem := r.body, script := r.script, eofWithLast := r.eofWithLast }, limit := r.limit } [] hlim hwb
         (by simp [fuelFor]; omega)
+      have hC := lemma_readAll_gen r.dflt (fuelFor r) r.caps
+        { under := { rem := r.body, script := r.script, eofWithLast := r.eofWithLast }, limit := r.limit } [] hlim
       generalize readAll r.dflt (fuelFor r) r.caps
         { under := { rem := r.body, script := r.script, eofWithLast := r.eofWithLast }, limit := r.limit } [] = res at *
-      simp only [List.nil_append, Nat.zero_add] at hA hB
+      simp only [List.nil_append, Nat.zero_add] at hA hB hC
       obtain ⟨d, e⟩ := res
+      have hX : d.isPrefixOf r.body = true ∧ d.length ≤ r.limit ∧
+          (e = .limit → r.body.length > r.limit ∧ d.length = r.limit) := by
+        obtain ⟨m, hm1, hm2, hmd, _, hml⟩ := hC
+        simp only at hmd hml hm1 hm2
+        subst hmd
+        refine ⟨by rw [List.isPrefixOf_iff_prefix]; exact List.take_prefix _ _, by rw [List.length_take]; omega, ?_⟩
+        intro he
+        obtain ⟨h1, h2⟩ := hml he
+        have h3 : m < r.body.length := by
+          rcases Nat.lt_or_ge m r.body.length with h | h
+          · exact h
+          · exact absurd (List.drop_eq_nil_of_le h) h2
+        exact ⟨by omega, by rw [List.length_take]; omega⟩
+      obtain ⟨hX1, hX2, hX3⟩ := hX
       cases e <;> cases hw : wellBehaved r.script <;> by_cases hle : r.body.length ≤ r.limit <;> simp_all
 
 /-! ### non-vacuity and the reader as shipped before the repair -/
